@@ -66,3 +66,35 @@ Definition bcomp_ok (c : bcomp) : bool :=
 
 Definition elem0 : elem := mkE EmptyString [] 0%N 0%Z 0%N 0%Z 0%Z.
 Definition en0 : elem * Z := (elem0, 0%Z).
+
+(* the lightest isotope BRAIN finds for an element (the last one its coefficient loop visits); its abundance and
+   mass must be non-zero for the normalisation by the constant term to mean anything *)
+Fixpoint tail_loop (e : elem) (is_ : list nat) (last : option iso) : option iso :=
+  match is_ with
+  | [] => last
+  | i :: rest =>
+      let kz := (Z.of_nat (List.length (isos e)) + Z.of_N (number e) - Z.of_nat i - 1)%Z in
+      if (kz <? 0)%Z then last else
+      match assoc_get (Z.to_N kz) (isos e) with
+      | None => tail_loop e rest last
+      | Some iso => tail_loop e rest (Some iso)
+      end
+  end.
+Definition elem_tail_pos (e : elem) : bool :=
+  match tail_loop e (seq 0 (Z.to_nat (max_shift e - min_shift e + 1))) None with
+  | Some i => (0 <? TableModel.ab i)%Z && (0 <? TableModel.mass i)%Z
+  | None => false
+  end.
+Definition bcomp_pos (c : bcomp) : bool := forallb (fun en => elem_tail_pos (fst en)) c.
+
+(* the complement of keep_real: the variants the 1e-10 rule drops *)
+Section SkipReal.
+  Context {F : Type} (N : Num F).
+  Fixpoint skip_real (l : list (F * F)) (has_real : bool) : list (F * F) :=
+    match l with
+    | [] => []
+    | (m, p) :: r => if ltb N p (tiny10 N)
+                     then (if has_real then (m, p) :: skip_real r has_real else skip_real r has_real)
+                     else skip_real r true
+    end.
+End SkipReal.
